@@ -476,28 +476,85 @@ example : accepts WorkbookSpec (.obj [(.s "version", .flt (.fin 2 1)), (.s "name
     (.s "workflows", .obj [(.s "version", .str "2.0"), (.s "my-wf", .obj [])]),
     (.s "actions", .obj [(.s "a1", .str "anything")])]) = true := by decide
 
-/-! ## every task of an accepted `tasks` section becomes a task specification? -/
+/-! ## every member of an accepted section becomes a specification -/
 
-/-- "An accepted definition re-read … is the same definition (tasks, …)": FALSE for a task named
-    `version`.  The `tasks` schema accepts it (any key is allowed), `WorkflowSpec.__init__` injects `type`
-    into it, but `TaskSpecList` (`BaseSpecList.__init__`: `if k != 'version'`) never instantiates it: the
-    task is neither validated nor part of the workflow.  Replayed on the real parser
-    (corpus/C14/31-task-named-version-dropped.json). -/
-theorem tasks_all_instantiated_full_fails :
-    ¬ (∀ kvs, accepts P_tasks (.obj kvs) = true → ∀ kv ∈ kvs, kv ∈ specListMembers kvs) := by
-  intro h
-  have := h [(.s "version", .obj [(.s "action", .str "std.noop")]), (.s "t2", .obj [(.s "action", .str "std.noop")])]
-    (by decide) (.s "version", .obj [(.s "action", .str "std.noop")]) (List.mem_cons_self ..)
-  simp [specListMembers] at this
+/-- Tie A: `BaseSpecList.__init__` skips the key `version` (`specListMembers`) and
+    `WorkflowSpec.validate_schema` rejects a task with that name (`tasksNameCheck`, repo patch 27). -/
+theorem version_key_tied : specListSkipsVersion = true ∧ taskNamedVersionRejected = true := by decide
 
-/-- … and true for every other task name. -/
-theorem tasks_all_instantiated_partial {kvs : List (Key × JVal)} (_h : accepts P_tasks (.obj kvs) = true)
-    (hv : ∀ kv ∈ kvs, kv.1 ≠ .s "version") : ∀ kv ∈ kvs, kv ∈ specListMembers kvs := by
+theorem hasKey_of_mem {k : String} {v : JVal} {kvs : List (Key × JVal)} (h : (Key.s k, v) ∈ kvs) :
+    hasKey k kvs = true := by
+  unfold hasKey lookup
+  induction kvs with
+  | nil => cases h
+  | cons x xs ih =>
+    obtain ⟨k', v'⟩ := x
+    by_cases hk : k' = Key.s k
+    · simp [lookupKey, hk]
+    · rcases List.mem_cons.mp h with he | hm
+      · cases he; exact absurd rfl hk
+      · simpa [lookupKey, hk] using ih hm
+
+/-- "An accepted definition re-read … is the same definition (tasks, …)": every entry of the `tasks`
+    section of an ACCEPTED workflow (schema + the explicit name check of `WorkflowSpec.validate_schema`)
+    is instantiated by `TaskSpecList`.  Before repo patch 27 there was no name check and the statement
+    was false for a task named `version` (`…_full_fails`, witness
+    corpus/C14/31-task-named-version-dropped.json, now a regression: the definition is rejected). -/
+theorem tasks_all_instantiated {kvs : List (Key × JVal)} (_h : accepts P_tasks (.obj kvs) = true)
+    (hc : tasksNameCheck kvs = true) : ∀ kv ∈ kvs, kv ∈ specListMembers kvs := by
   intro kv hkv
   simp only [specListMembers, List.mem_filter, hkv, true_and, bne_iff_ne, ne_eq]
-  exact hv kv hkv
+  intro he
+  obtain ⟨k, v⟩ := kv
+  simp only at he
+  subst he
+  simp [tasksNameCheck, hasKey_of_mem hkv] at hc
 
-example : accepts P_tasks (.obj [(.s "t1", .obj [(.s "action", .str "a")]), (.s "t-2", .obj [(.s "join", .int 1)])]) = true := by
+example : accepts P_tasks (.obj [(.s "t1", .obj [(.s "action", .str "std.noop")]),
+    (.s "t-2", .obj [(.s "join", .int 1)])]) = true ∧
+    tasksNameCheck [(.s "t1", .obj [(.s "action", .str "std.noop")]), (.s "t-2", .obj [(.s "join", .int 1)])] = true := by
   decide
+
+/-- the name check is necessary: the schema alone accepts a task named `version`. -/
+theorem tasks_schema_accepts_version :
+    accepts P_tasks (.obj [(.s "version", .obj [(.s "action", .str "std.noop")])]) = true ∧
+    tasksNameCheck [(.s "version", .obj [(.s "action", .str "std.noop")])] = false := by decide
+
+/-- the `actions` / `workflows` section of a workbook: the only entry `BaseSpecList.__init__` skips is
+    the marker, and in an accepted section an entry named `version` IS the marker ("2.0" / 2.0 / 2):
+    a workflow or action named `version` is a definition error, never a silently dropped member. -/
+theorem section_members_instantiated {kvs : List (Key × JVal)} (h : accepts P_actions__workflows (.obj kvs) = true) :
+    (∀ kv ∈ kvs, kv.1 ≠ .s "version" → kv ∈ specListMembers kvs) ∧
+    (∀ v, (Key.s "version", v) ∈ kvs → v.isObj = false) := by
+  constructor
+  · intro kv hkv hne
+    simp [specListMembers, hkv, hne]
+  · intro v hv
+    unfold P_actions__workflows at h
+    open_schema h
+    obtain ⟨_, _, hp, _⟩ := h
+    have := patternProperties_sub hp (r := re_versionKey) (List.mem_cons_self ..) hv (by decide)
+    open_schema this
+    simp only [validateKw, Out.clean_check, List.any_cons, List.any_nil, Bool.or_false, Bool.or_eq_true] at this
+    cases v <;> simp_all [equal, numEq, JVal.isObj]
+
+example : accepts P_actions__workflows (.obj [(.s "version", .str "2.0"), (.s "wf-1", .obj [])]) = true := by decide
+example : accepts P_actions__workflows (.obj [(.s "version", .obj [(.s "tasks", .null)])]) = false := by decide
+
+/-- a workflow / action list: `version` is the version of the document (never a dict), every other
+    entry is a member (`BaseListSpec.__init__`). -/
+theorem list_members_instantiated {kvs : List (Key × JVal)} (h : ListShape kvs) :
+    (∀ kv ∈ kvs, kv.1 ≠ .s "version" → kv ∈ listSpecMembers kvs) ∧
+    (∀ v, lookup "version" kvs = some v → v.isObj = false) := by
+  constructor
+  · intro kv hkv hne
+    simp [listSpecMembers, hkv, hne]
+  · intro v hv
+    obtain ⟨⟨v', hv', hs⟩, _⟩ := h
+    rw [hv] at hv'
+    cases hv'
+    rcases hs with ⟨s, rfl, _⟩ | ⟨n, hn, _⟩
+    · rfl
+    · cases v <;> simp_all [JVal.num?, JVal.isObj]
 
 end Mistral.Props.C14Schema
